@@ -125,7 +125,8 @@ func (r Registers) register(address uint16) ([]byte, error) {
 	if address < r.startAddress {
 		return nil, errors.New("address under startAddress bounds")
 	}
-	if address >= r.endAddress {
+	// compare offsets within the window so that windows ending at address 65535 (endAddress wraps to 0) work
+	if address-r.startAddress >= r.endAddress-r.startAddress {
 		return nil, errors.New("address over startAddress+quantity bounds")
 	}
 	startIndex := (address - r.startAddress) * 2
@@ -145,7 +146,8 @@ func (r Registers) doubleRegister(address uint16, byteOrder ByteOrder) ([]byte, 
 	if address < r.startAddress {
 		return nil, errors.New("address under startAddress bounds")
 	}
-	if address > (r.endAddress - 2) {
+	// compare offsets within the window: avoids wrap at address 65535 and underflow for windows shorter than 2 registers
+	if count := r.endAddress - r.startAddress; count < 2 || address-r.startAddress > count-2 {
 		return nil, errors.New("address over startAddress+quantity bounds")
 	}
 	startIndex := (address - r.startAddress) * 2
@@ -175,7 +177,8 @@ func (r Registers) quadRegister(address uint16, byteOrder ByteOrder) ([]byte, er
 	if address < r.startAddress {
 		return nil, errors.New("address under startAddress bounds")
 	}
-	if address > (r.endAddress - 4) {
+	// compare offsets within the window: avoids wrap at address 65535 and underflow for windows shorter than 4 registers
+	if count := r.endAddress - r.startAddress; count < 4 || address-r.startAddress > count-4 {
 		return nil, errors.New("address over startAddress+quantity bounds")
 	}
 	startIndex := (address - r.startAddress) * 2
